@@ -543,6 +543,8 @@ fn replicate_message_to_all(op_log_id: u64, message: String, dbs: &Arc<Databases
 
 fn replicate_message_to_secoundary(op_log_id: u64, message: String, dbs: &Arc<Databases>) {
     log::debug!("Got the message {} to replicate ", message);
+    #[cfg(nun_verif)]
+    crate::verif::yield_point("cluster_state.replicate_message_to_secoundary");
     let state = dbs.cluster_state.lock().unwrap();
     for (name, member) in state.members.lock().unwrap().iter() {
         match member.role {
@@ -565,6 +567,8 @@ pub fn send_message_to_primary(message: String, dbs: &Arc<Databases>) {
     // in test intoduces latency to replication in app noop
     latency_trap();
     log::debug!("Got the message {} to send to primary", message);
+    #[cfg(nun_verif)]
+    crate::verif::yield_point("cluster_state.send_message_to_primary");
     let state = dbs.cluster_state.lock().unwrap();
     for (_name, member) in state.members.lock().unwrap().iter() {
         match member.role {
@@ -1039,6 +1043,8 @@ pub async fn start_replication_supervisor(
                         let start_at = start_at_str.parse::<u64>().unwrap();
 
                         //send missing data to primary
+                        #[cfg(nun_verif)]
+                        crate::verif::yield_point("cluster_state.replicate_since_to");
                         let cluster_state = dbs.cluster_state.lock().unwrap();
                         let members = cluster_state.members.lock().unwrap();
                         match members.get(&name) {
